@@ -1,1 +1,680 @@
-fn main(){}
+//! C20 driver: real introspection type ids of /repo/core for the presentations of type universes that TLC
+//! enumerates from SchemaModel_MC20.tla, with the model's CanonId as oracle.
+//!
+//! A presentation P (definitions in declaration order, members in insertion order, `rord` the order in
+//! which add_references hands out references, `docs`, `impl`) is turned into `ir::LayoutIr` values through
+//! the public builders.  `DynIntrospectable` holds plain fn pointers, so dynamic layouts are served by a
+//! table of const-generic slot types `Slot<N>: Introspectable` that look their layout and references up in a
+//! thread-local registry.  With impl = "real", leaves and unary / map / array generics are the real impls of
+//! aldrin-core (`Option<Slot<N>>`, `Vec<..>`, `HashMap<String, ..>`, `u8`, `String`, ...) instead of hand-built IR.
+//!
+//! Per case:
+//!   I1 VIOLATION  panic in TypeId::compute_from_dyn / Introspection::from_dyn / serialize / deserialize
+//!   I2 VIOLATION  computing the id twice gives different ids
+//!   I3 VIOLATION  Introspection -> serialize -> deserialize is not an equal record / fails
+//!   I4 VIOLATION  a type id mentioned in the layout is not among the record's references, or is not the id
+//!                 of the referenced type computed on its own
+//!   I5 VIOLATION  predicted-equal presentation (permutation, docs, impl, edit of an unrelated definition)
+//!                 has a different id than its base
+//!   I6 VIOLATION  predicted-different presentation (single semantic edit of a listed aspect) has the same id
+//!      DRIFT      ... of an aspect the statement does not list (service uuid / version)
+//!   I7 VIOLATION  pairwise across the corpus: equal CanonId <=> equal TypeId (anything I5/I6 did not name)
+//!   DRIFT         a pinned id of core/src/introspection/test is not re-derived
+//!
+//! usage: schema-ids run --vectors F [--pinned F] [--corrupt N]   |   schema-ids replay --file F
+use aldrin_core::introspection::{ir, BuiltInType, DynIntrospectable, Introspectable, Introspection, Layout, LexicalId, References};
+use aldrin_core::{Bytes, ObjectId, SerializedValue, ServiceId, ServiceUuid, TypeId, Value as AValue};
+use schema_driver::{canonical_set_string, guarded, read_ndjson, silence_panics, Args, Findings};
+use serde_json::{json, Value};
+use std::cell::RefCell;
+use std::collections::{BTreeMap, BTreeSet, HashMap, HashSet};
+use uuid::Uuid;
+
+#[derive(Clone)]
+struct Node {
+    layout: ir::LayoutIr,
+    refs: Vec<DynIntrospectable>,
+}
+
+thread_local! {
+    static REG: RefCell<Vec<Node>> = const { RefCell::new(Vec::new()) };
+}
+
+struct Slot<const N: usize>;
+
+impl<const N: usize> Introspectable for Slot<N> {
+    fn layout() -> ir::LayoutIr {
+        REG.with(|r| r.borrow()[N].layout.clone())
+    }
+
+    fn lexical_id() -> LexicalId {
+        Self::layout().lexical_id()
+    }
+
+    fn add_references(references: &mut References) {
+        let refs = REG.with(|r| r.borrow()[N].refs.clone());
+        for d in refs {
+            references.add_dyn(d);
+        }
+    }
+}
+
+/// `fn name(i) -> DynIntrospectable` for the type `$ty` in which `$n` stands for the slot number
+macro_rules! table {
+    ($name:ident, $n:ident, $ty:ty; $($k:literal)*) => {
+        fn $name(i: usize) -> DynIntrospectable {
+            match i {
+                $( $k => { const $n: usize = $k; DynIntrospectable::new::<$ty>() } )*
+                _ => panic!("slot table too small"),
+            }
+        }
+    };
+}
+macro_rules! with_slots {
+    ($($args:tt)*) => { table!($($args)*; 0 1 2 3 4 5 6 7 8 9 10 11 12 13 14 15 16 17 18 19 20 21 22 23 24 25 26 27 28 29 30 31 32 33 34 35 36 37 38 39 40 41 42 43 44 45 46 47 48 49 50 51 52 53 54 55 56 57 58 59 60 61 62 63 64 65 66 67 68 69 70 71 72 73 74 75 76 77 78 79 80 81 82 83 84 85 86 87 88 89 90 91 92 93 94 95); };
+}
+const SLOTS: usize = 96;
+with_slots!(slot, N, Slot<N>);
+with_slots!(real_option, N, Option<Slot<N>>);
+with_slots!(real_box, N, Box<Slot<N>>);
+with_slots!(real_vec, N, Vec<Slot<N>>);
+with_slots!(real_set, N, HashSet<Slot<N>>);
+with_slots!(real_arr2, N, [Slot<N>; 2]);
+with_slots!(real_arr3, N, [Slot<N>; 3]);
+with_slots!(real_arr4, N, [Slot<N>; 4]);
+with_slots!(real_map_string, N, HashMap<String, Slot<N>>);
+with_slots!(real_map_u8, N, HashMap<u8, Slot<N>>);
+with_slots!(real_map_u32, N, BTreeMap<u32, Slot<N>>);
+
+// ------------------------------------------------------------------------------------------------
+// a universe built from the JSON presentation
+struct Universe {
+    /// canonical key of a type expression -> node index (definitions first, in declaration order)
+    index: HashMap<String, usize>,
+    exprs: Vec<Value>,
+    nodes: Vec<Node>,
+    dyns: Vec<DynIntrospectable>,
+    /// per node: the type expressions it references directly, in the order add_references uses
+    ref_exprs: Vec<Vec<Value>>,
+}
+
+fn key(t: &Value) -> String {
+    canonical_set_string(t)
+}
+
+fn s<'a>(v: &'a Value, k: &str) -> &'a str {
+    v[k].as_str().unwrap_or("")
+}
+
+fn num(v: &Value, k: &str) -> u32 {
+    s(v, k).parse().unwrap_or_else(|_| panic!("driver: bad number {:?}", v[k]))
+}
+
+fn opt(v: &Value) -> Option<&Value> {
+    v.as_array().and_then(|a| a.first())
+}
+
+fn arr(v: &Value) -> &[Value] {
+    v.as_array().map(Vec::as_slice).unwrap_or(&[])
+}
+
+fn ext(schema: &str, name: &str) -> Value {
+    json!({"k": "ext", "schema": schema, "name": name})
+}
+
+/// direct references of a definition in declaration order (SchemaModel!DefRefs)
+fn def_refs(d: &Value) -> Vec<Value> {
+    match s(d, "k") {
+        "struct" => arr(&d["mem"]).iter().map(|m| m["ty"].clone()).collect(),
+        "enum" => arr(&d["mem"]).iter().filter_map(|m| opt(&m["ty"]).cloned()).collect(),
+        "newtype" => vec![d["ty"].clone()],
+        "service" => {
+            let mut r = Vec::new();
+            for f in arr(&d["fns"]) {
+                for p in ["args", "ok", "err"] {
+                    r.extend(opt(&f[p]).cloned());
+                }
+            }
+            for e in arr(&d["evs"]) {
+                r.extend(opt(&e["ty"]).cloned());
+            }
+            r
+        }
+        k => panic!("driver: unknown definition kind {k}"),
+    }
+}
+
+fn type_refs(t: &Value) -> Vec<Value> {
+    match s(t, "k") {
+        "option" | "box" | "vec" | "set" | "sender" | "receiver" | "array" => vec![t["a"].clone()],
+        "map" | "result" => vec![t["a"].clone(), t["b"].clone()],
+        _ => vec![],
+    }
+}
+
+fn ordered<T: Clone>(rord: &str, v: Vec<T>) -> Vec<T> {
+    match rord {
+        "rev" => v.into_iter().rev().collect(),
+        "dup" => v.iter().cloned().chain(v.iter().cloned()).collect(),
+        "rot" if !v.is_empty() => v[1..].iter().cloned().chain(std::iter::once(v[0].clone())).collect(),
+        _ => v,
+    }
+}
+
+struct Docs<'a>(&'a str);
+impl Docs<'_> {
+    /// the documentation string of item number i (None: no doc call at all)
+    fn of(&self, what: &str, i: usize) -> Option<String> {
+        match self.0 {
+            "all" => Some(format!("Documentation of {what}.\n\nSecond paragraph.")),
+            "alt" if i % 2 == 1 => Some(format!("other words about {what} #{i}")),
+            _ => None,
+        }
+    }
+}
+
+impl Universe {
+    fn build(p: &Value) -> Self {
+        let defs = arr(&p["defs"]);
+        let rord = s(p, "rord");
+        let real = s(p, "impl") == "real";
+        let docs = Docs(s(p, "docs"));
+        let mut u = Universe { index: HashMap::new(), exprs: vec![], nodes: vec![], dyns: vec![], ref_exprs: vec![] };
+        let kinds: HashMap<String, String> = defs.iter().map(|d| (key(&ext(s(d, "schema"), s(d, "name"))), s(d, "k").to_owned())).collect();
+
+        // node numbering: definitions in declaration order, then every type expression in order of first appearance
+        for d in defs {
+            u.add_expr(&ext(s(d, "schema"), s(d, "name")));
+        }
+        let mut i = 0;
+        while i < u.exprs.len() {
+            let e = u.exprs[i].clone();
+            let refs = if i < defs.len() { def_refs(&defs[i]) } else { type_refs(&e) };
+            for r in &refs {
+                u.add_expr_rec(r);
+            }
+            u.ref_exprs.push(ordered(rord, refs));
+            i += 1;
+        }
+        assert!(u.exprs.len() <= SLOTS, "driver: universe needs {} slots", u.exprs.len());
+
+        // which DynIntrospectable serves a node
+        let dyns: Vec<DynIntrospectable> = (0..u.exprs.len()).map(|i| if real && i >= defs.len() { u.real_dyn(i) } else { slot(i) }).collect();
+        u.dyns = dyns;
+
+        // layouts
+        let lex = |t: &Value| lexical_id(t, &kinds);
+        for i in 0..u.exprs.len() {
+            let layout = if i < defs.len() { def_layout(&defs[i], &lex, &docs) } else { builtin_layout(&u.exprs[i], &lex).into() };
+            let refs = u.ref_exprs[i].iter().map(|r| u.dyns[u.index[&key(r)]]).collect();
+            u.nodes.push(Node { layout, refs });
+        }
+        u
+    }
+
+    fn add_expr(&mut self, t: &Value) -> usize {
+        let k = key(t);
+        if let Some(i) = self.index.get(&k) {
+            return *i;
+        }
+        self.index.insert(k, self.exprs.len());
+        self.exprs.push(t.clone());
+        self.exprs.len() - 1
+    }
+
+    fn add_expr_rec(&mut self, t: &Value) {
+        if !self.index.contains_key(&key(t)) {
+            self.add_expr(t);
+        }
+    }
+
+    /// the real impl of aldrin-core for a built-in node, if there is one; the slot otherwise
+    fn real_dyn(&self, i: usize) -> DynIntrospectable {
+        let t = &self.exprs[i];
+        let child = |k: &str| self.index.get(&key(&t[k])).copied();
+        match s(t, "k") {
+            "bool" => DynIntrospectable::new::<bool>(),
+            "u8" => DynIntrospectable::new::<u8>(),
+            "i8" => DynIntrospectable::new::<i8>(),
+            "u16" => DynIntrospectable::new::<u16>(),
+            "i16" => DynIntrospectable::new::<i16>(),
+            "u32" => DynIntrospectable::new::<u32>(),
+            "i32" => DynIntrospectable::new::<i32>(),
+            "u64" => DynIntrospectable::new::<u64>(),
+            "i64" => DynIntrospectable::new::<i64>(),
+            "f32" => DynIntrospectable::new::<f32>(),
+            "f64" => DynIntrospectable::new::<f64>(),
+            "string" => DynIntrospectable::new::<String>(),
+            "uuid" => DynIntrospectable::new::<Uuid>(),
+            "object_id" => DynIntrospectable::new::<ObjectId>(),
+            "service_id" => DynIntrospectable::new::<ServiceId>(),
+            "value" => DynIntrospectable::new::<AValue>(),
+            "bytes" => DynIntrospectable::new::<Bytes>(),
+            "unit" => DynIntrospectable::new::<()>(),
+            "option" => real_option(child("a").unwrap()),
+            "box" => real_box(child("a").unwrap()),
+            "vec" => real_vec(child("a").unwrap()),
+            "set" => real_set(child("a").unwrap()),
+            "array" => match t["len"]["lit"].as_str() {
+                Some("2") => real_arr2(child("a").unwrap()),
+                Some("3") => real_arr3(child("a").unwrap()),
+                Some("4") => real_arr4(child("a").unwrap()),
+                _ => slot(i),
+            },
+            "map" => match s(&t["a"], "k") {
+                "string" => real_map_string(child("b").unwrap()),
+                "u8" => real_map_u8(child("b").unwrap()),
+                "u32" => real_map_u32(child("b").unwrap()),
+                _ => slot(i),
+            },
+            _ => slot(i),
+        }
+    }
+
+    fn install(&self) {
+        REG.with(|r| *r.borrow_mut() = self.nodes.clone());
+    }
+
+    fn dyn_of(&self, t: &Value) -> DynIntrospectable {
+        self.dyns[*self.index.get(&key(t)).unwrap_or_else(|| panic!("driver: unknown type {t}"))]
+    }
+}
+
+fn lexical_id(t: &Value, kinds: &HashMap<String, String>) -> LexicalId {
+    let a = || lexical_id(&t["a"], kinds);
+    let b = || lexical_id(&t["b"], kinds);
+    match s(t, "k") {
+        "bool" => LexicalId::BOOL,
+        "u8" => LexicalId::U8,
+        "i8" => LexicalId::I8,
+        "u16" => LexicalId::U16,
+        "i16" => LexicalId::I16,
+        "u32" => LexicalId::U32,
+        "i32" => LexicalId::I32,
+        "u64" => LexicalId::U64,
+        "i64" => LexicalId::I64,
+        "f32" => LexicalId::F32,
+        "f64" => LexicalId::F64,
+        "string" => LexicalId::STRING,
+        "uuid" => LexicalId::UUID,
+        "object_id" => LexicalId::OBJECT_ID,
+        "service_id" => LexicalId::SERVICE_ID,
+        "value" => LexicalId::VALUE,
+        "bytes" => LexicalId::BYTES,
+        "lifetime" => LexicalId::LIFETIME,
+        "unit" => LexicalId::UNIT,
+        "option" => LexicalId::option(a()),
+        "box" => LexicalId::box_ty(a()),
+        "vec" => LexicalId::vec(a()),
+        "set" => LexicalId::set(a()),
+        "sender" => LexicalId::sender(a()),
+        "receiver" => LexicalId::receiver(a()),
+        "map" => LexicalId::map(a(), b()),
+        "result" => LexicalId::result(a(), b()),
+        "array" => LexicalId::array(a(), num(&t["len"], "lit")),
+        "ext" => {
+            if kinds.get(&key(t)).map(String::as_str) == Some("service") {
+                LexicalId::service(s(t, "schema"), s(t, "name"))
+            } else {
+                LexicalId::custom(s(t, "schema"), s(t, "name"))
+            }
+        }
+        k => panic!("driver: unknown type kind {k}"),
+    }
+}
+
+fn builtin_layout(t: &Value, lex: &dyn Fn(&Value) -> LexicalId) -> ir::BuiltInTypeIr {
+    use ir::BuiltInTypeIr as B;
+    match s(t, "k") {
+        "bool" => B::Bool,
+        "u8" => B::U8,
+        "i8" => B::I8,
+        "u16" => B::U16,
+        "i16" => B::I16,
+        "u32" => B::U32,
+        "i32" => B::I32,
+        "u64" => B::U64,
+        "i64" => B::I64,
+        "f32" => B::F32,
+        "f64" => B::F64,
+        "string" => B::String,
+        "uuid" => B::Uuid,
+        "object_id" => B::ObjectId,
+        "service_id" => B::ServiceId,
+        "value" => B::Value,
+        "bytes" => B::Bytes,
+        "lifetime" => B::Lifetime,
+        "unit" => B::Unit,
+        "option" => B::Option(lex(&t["a"])),
+        "box" => B::Box(lex(&t["a"])),
+        "vec" => B::Vec(lex(&t["a"])),
+        "set" => B::Set(lex(&t["a"])),
+        "sender" => B::Sender(lex(&t["a"])),
+        "receiver" => B::Receiver(lex(&t["a"])),
+        "map" => B::Map(ir::MapTypeIr::new(lex(&t["a"]), lex(&t["b"]))),
+        "result" => B::Result(ir::ResultTypeIr::new(lex(&t["a"]), lex(&t["b"]))),
+        "array" => B::Array(ir::ArrayTypeIr::new(lex(&t["a"]), num(&t["len"], "lit"))),
+        k => panic!("driver: not a built-in type: {k}"),
+    }
+}
+
+/// the IR of a definition through the public builders, members inserted in the order of the presentation
+fn def_layout(d: &Value, lex: &dyn Fn(&Value) -> LexicalId, docs: &Docs) -> ir::LayoutIr {
+    let (schema, name) = (s(d, "schema"), s(d, "name"));
+    macro_rules! doc {
+        ($b:expr, $what:expr, $i:expr) => {{
+            let b = $b;
+            match docs.of($what, $i) {
+                Some(text) => b.doc(text),
+                None => b,
+            }
+        }};
+    }
+    match s(d, "k") {
+        "struct" => {
+            let mut b = doc!(ir::StructIr::builder(schema, name), name, 1);
+            for (i, m) in arr(&d["mem"]).iter().enumerate() {
+                let f = doc!(ir::FieldIr::builder(num(m, "id"), s(m, "name"), m["req"].as_bool().unwrap_or(false), lex(&m["ty"])), s(m, "name"), i);
+                b = b.field(f.finish());
+            }
+            if let Some(f) = opt(&d["fb"]) {
+                b = b.fallback(doc!(ir::StructFallbackIr::builder(f.as_str().unwrap_or("")), "fallback", 1).finish());
+            }
+            b.finish().into()
+        }
+        "enum" => {
+            let mut b = doc!(ir::EnumIr::builder(schema, name), name, 1);
+            for (i, m) in arr(&d["mem"]).iter().enumerate() {
+                let mut v = doc!(ir::VariantIr::builder(num(m, "id"), s(m, "name")), s(m, "name"), i);
+                if let Some(t) = opt(&m["ty"]) {
+                    v = v.variant_type(lex(t));
+                }
+                b = b.variant(v.finish());
+            }
+            if let Some(f) = opt(&d["fb"]) {
+                b = b.fallback(doc!(ir::EnumFallbackIr::builder(f.as_str().unwrap_or("")), "fallback", 1).finish());
+            }
+            b.finish().into()
+        }
+        "newtype" => doc!(ir::NewtypeIr::builder(schema, name, lex(&d["ty"])), name, 1).finish().into(),
+        "service" => {
+            let uuid: Uuid = s(d, "uuid").parse().expect("driver: service uuid");
+            let mut b = doc!(ir::ServiceIr::builder(schema, name, ServiceUuid(uuid), num(d, "ver")), name, 1);
+            for (i, f) in arr(&d["fns"]).iter().enumerate() {
+                let mut fb = doc!(ir::FunctionIr::builder(num(f, "id"), s(f, "name")), s(f, "name"), i);
+                if let Some(t) = opt(&f["args"]) {
+                    fb = fb.args(lex(t));
+                }
+                if let Some(t) = opt(&f["ok"]) {
+                    fb = fb.ok(lex(t));
+                }
+                if let Some(t) = opt(&f["err"]) {
+                    fb = fb.err(lex(t));
+                }
+                b = b.function(fb.finish());
+            }
+            for (i, e) in arr(&d["evs"]).iter().enumerate() {
+                let mut eb = doc!(ir::EventIr::builder(num(e, "id"), s(e, "name")), s(e, "name"), i);
+                if let Some(t) = opt(&e["ty"]) {
+                    eb = eb.event_type(lex(t));
+                }
+                b = b.event(eb.finish());
+            }
+            if let Some(f) = opt(&d["fnfb"]) {
+                b = b.function_fallback(doc!(ir::FunctionFallbackIr::builder(f.as_str().unwrap_or("")), "fn fallback", 1).finish());
+            }
+            if let Some(f) = opt(&d["evfb"]) {
+                b = b.event_fallback(doc!(ir::EventFallbackIr::builder(f.as_str().unwrap_or("")), "event fallback", 1).finish());
+            }
+            b.finish().into()
+        }
+        k => panic!("driver: unknown definition kind {k}"),
+    }
+}
+
+/// every type id a resolved layout mentions
+fn layout_type_ids(l: &Layout) -> Vec<TypeId> {
+    match l {
+        Layout::BuiltIn(b) => match *b {
+            BuiltInType::Option(t) | BuiltInType::Box(t) | BuiltInType::Vec(t) | BuiltInType::Set(t) | BuiltInType::Sender(t)
+            | BuiltInType::Receiver(t) => vec![t],
+            BuiltInType::Map(m) => vec![m.key(), m.value()],
+            BuiltInType::Result(r) => vec![r.ok(), r.err()],
+            BuiltInType::Array(a) => vec![a.elem_type()],
+            _ => vec![],
+        },
+        Layout::Struct(x) => x.fields().values().map(|f| f.field_type()).collect(),
+        Layout::Enum(x) => x.variants().values().filter_map(|v| v.variant_type()).collect(),
+        Layout::Newtype(x) => vec![x.target_type()],
+        Layout::Service(x) => x
+            .functions()
+            .values()
+            .flat_map(|f| [f.args(), f.ok(), f.err()])
+            .flatten()
+            .chain(x.events().values().filter_map(|e| e.event_type()))
+            .collect(),
+    }
+}
+
+// ------------------------------------------------------------------------------------------------
+struct Computed {
+    type_id: Option<TypeId>,
+}
+
+fn judge(v: &Value, viol: &mut Findings, roundtrips: &mut u64, refs_checked: &mut u64) -> Computed {
+    let id = s(v, "id");
+    let case = || json!({"id": id, "u": v["u"], "op": v["op"], "what": v["what"], "root": v["root"], "P": v["P"], "canon": v["canon"],
+                         "base": v["base"], "expect": v["expect"], "listed": v["listed"]});
+    let root = ext(s(&v["root"], "schema"), s(&v["root"], "name"));
+    let universe = match guarded(|| Universe::build(&v["P"])) {
+        Ok(u) => u,
+        Err(m) => {
+            eprintln!("driver error while building {id}: {m}");
+            std::process::exit(2);
+        }
+    };
+    universe.install();
+    let root_dyn = universe.dyn_of(&root);
+
+    let r = guarded(|| {
+        let t1 = TypeId::compute_from_dyn(root_dyn);
+        let t2 = TypeId::compute_from_dyn(root_dyn);
+        let intro = Introspection::from_dyn(root_dyn);
+        let ser = SerializedValue::serialize(&intro);
+        let back = ser.as_ref().ok().map(|sv| sv.deserialize::<Introspection>());
+        // the ids of the directly referenced types, computed on their own
+        let direct: Vec<TypeId> = universe.ref_exprs[universe.index[&key(&root)]].iter().map(|t| TypeId::compute_from_dyn(universe.dyn_of(t))).collect();
+        (t1, t2, intro, ser.is_ok(), back, direct)
+    });
+    let (t1, t2, intro, ser_ok, back, direct) = match r {
+        Err(m) => {
+            viol.add(&format!("I1 panic while computing the id / introspection record: {}", m.chars().take(160).collect::<String>()), case());
+            return Computed { type_id: None };
+        }
+        Ok(x) => x,
+    };
+    if t1 != t2 {
+        viol.add("I2 computing the id twice gives different ids", case());
+    }
+    if intro.type_id() != t1 {
+        viol.add("I3 the introspection record carries an id other than TypeId::compute_from_dyn", case());
+    }
+    match back {
+        Some(Ok(back)) if ser_ok => {
+            *roundtrips += 1;
+            if back != intro {
+                viol.add("I3 the deserialized introspection record differs from the original", case());
+            }
+            let direct: BTreeSet<TypeId> = direct.into_iter().collect();
+            for t in layout_type_ids(back.layout()) {
+                *refs_checked += 1;
+                if !back.references().contains(&t) {
+                    viol.add("I4 a type id of the layout is not among the references of the record", case());
+                    break;
+                }
+                if !direct.contains(&t) {
+                    viol.add("I4 a reference of the layout is not the id of the referenced type", case());
+                    break;
+                }
+            }
+            let refs: BTreeSet<TypeId> = back.references().iter().copied().collect();
+            if refs != direct {
+                viol.add("I4 the references of the record are not the ids of the directly referenced types", case());
+            }
+        }
+        _ => viol.add("I3 the introspection record does not serialize / deserialize", case()),
+    }
+    Computed { type_id: Some(t1) }
+}
+
+/// CanonId with the aspects the statement does not list masked (service uuid and version)
+fn mask_unlisted(v: &Value) -> Value {
+    match v {
+        Value::Object(o) => Value::Object(
+            o.iter()
+                .map(|(k, x)| (k.clone(), if o.get("kind").and_then(Value::as_str) == Some("service") && (k == "uuid" || k == "ver") { json!("*") } else { mask_unlisted(x) }))
+                .collect(),
+        ),
+        Value::Array(a) => Value::Array(a.iter().map(mask_unlisted).collect()),
+        other => other.clone(),
+    }
+}
+
+fn main() {
+    let args = Args::parse();
+    silence_panics();
+    let (vectors, pinned, corrupt): (Vec<Value>, Value, u64) = match args.cmd.as_str() {
+        "run" => (
+            read_ndjson(args.req("vectors")),
+            args.get("pinned").and_then(|f| std::fs::read_to_string(f).ok()).and_then(|t| serde_json::from_str(&t).ok()).unwrap_or(json!({})),
+            args.num("corrupt", 0),
+        ),
+        "replay" => {
+            let data: Value = serde_json::from_str(&std::fs::read_to_string(args.req("file")).expect("replay file")).expect("json");
+            let mut cases = vec![data["case"].clone()];
+            cases.extend(data.get("other").cloned());
+            (cases, json!({}), 0)
+        }
+        _ => {
+            eprintln!("usage: schema-ids run --vectors F [--pinned F] [--corrupt N] | replay --file F");
+            std::process::exit(2);
+        }
+    };
+
+    let handle = std::thread::Builder::new()
+        .stack_size(256 << 20)
+        .spawn(move || {
+            let mut viol = Findings::default();
+            let mut drift = Findings::default();
+            let (mut roundtrips, mut refs_checked, mut pinned_ok, mut pinned_checked) = (0u64, 0u64, 0u64, 0u64);
+            let mut ids: Vec<Option<TypeId>> = Vec::new();
+            let mut keys: Vec<String> = Vec::new();
+            let mut by_op: BTreeMap<String, u64> = BTreeMap::new();
+            for (n, v) in vectors.iter().enumerate() {
+                let c = judge(v, &mut viol, &mut roundtrips, &mut refs_checked);
+                ids.push(c.type_id);
+                // binding sanity: a corrupted expected description must be noticed
+                keys.push(if (n as u64) < corrupt { format!("corrupted-{n}") } else { canonical_set_string(&v["canon"]) });
+                *by_op.entry(s(v, "op").to_owned()).or_insert(0) += 1;
+                if s(v, "op") == "base" {
+                    if let (Some(want), Some(got)) = (pinned.get(format!("{}/{}", s(&v["root"], "schema"), s(&v["root"], "name"))).and_then(Value::as_str), c.type_id) {
+                        pinned_checked += 1;
+                        if got.0.to_string() == want.to_lowercase() {
+                            pinned_ok += 1;
+                        } else {
+                            drift.add("pinned id of core/src/introspection/test not re-derived", json!({"id": v["id"], "want": want, "got": got.0.to_string()}));
+                        }
+                    }
+                }
+            }
+            let small = |v: &Value| json!({"id": v["id"], "u": v["u"], "op": v["op"], "what": v["what"], "root": v["root"], "P": v["P"], "canon": v["canon"],
+                                           "base": v["base"], "expect": v["expect"], "listed": v["listed"]});
+            let pos: HashMap<&str, usize> = vectors.iter().enumerate().map(|(i, v)| (s(v, "id"), i)).collect();
+
+            // I5 / I6: every case against its base
+            let mut named: HashSet<usize> = HashSet::new();
+            for (i, v) in vectors.iter().enumerate() {
+                let Some(&b) = pos.get(s(v, "base")) else { continue };
+                let (Some(ti), Some(tb)) = (ids[i], ids[b]) else { continue };
+                let op = s(v, "op");
+                let what = s(v, "what");
+                let payload = || {
+                    let mut c = small(v);
+                    c["type_id"] = json!(ti.0.to_string());
+                    json!({"case": c, "other": small(&vectors[b]), "other_type_id": tb.0.to_string()})
+                };
+                if s(v, "expect") == "eq" && ti != tb && keys[i] == keys[b] {
+                    named.insert(i);
+                    let why = if op.ends_with("edit") {
+                        format!("I5 an edit ({what}) of a definition the type does not reference changes its id")
+                    } else {
+                        format!("I5 the id changes under {op} although the wire-relevant description is the same")
+                    };
+                    viol.add(&why, payload());
+                } else if s(v, "expect") == "ne" && ti == tb && keys[i] != keys[b] {
+                    named.insert(i);
+                    if v["listed"].as_bool().unwrap_or(true) {
+                        viol.add(&format!("I6 a semantic edit ({what}) does not change the id"), payload());
+                    } else {
+                        drift.add(&format!("an edit of an aspect the statement does not list ({what}) does not change the id"), payload());
+                    }
+                }
+            }
+            // I7: pairwise across the corpus, equal CanonId <=> equal TypeId
+            let mut by_key: BTreeMap<&str, BTreeMap<TypeId, usize>> = BTreeMap::new();
+            let mut by_id: BTreeMap<TypeId, BTreeMap<&str, usize>> = BTreeMap::new();
+            for i in 0..vectors.len() {
+                if let Some(t) = ids[i] {
+                    by_key.entry(&keys[i]).or_default().entry(t).or_insert(i);
+                    by_id.entry(t).or_default().entry(&keys[i]).or_insert(i);
+                }
+            }
+            for (_, m) in &by_key {
+                if m.len() > 1 {
+                    let idx: Vec<usize> = m.values().copied().collect();
+                    if idx.iter().any(|i| named.contains(i)) {
+                        continue;
+                    }
+                    viol.add("I7 two presentations with the same wire-relevant description have different ids",
+                        json!({"case": small(&vectors[idx[0]]), "other": small(&vectors[idx[1]])}));
+                }
+            }
+            for (_, m) in &by_id {
+                if m.len() > 1 {
+                    let idx: Vec<usize> = m.values().copied().collect();
+                    if idx.iter().any(|i| named.contains(i)) {
+                        continue;
+                    }
+                    let masked: BTreeSet<String> = idx.iter().map(|&i| canonical_set_string(&mask_unlisted(&vectors[i]["canon"]))).collect();
+                    let payload = json!({"case": small(&vectors[idx[0]]), "other": small(&vectors[idx[1]])});
+                    if masked.len() > 1 || keys[idx[0]].starts_with("corrupted") || keys[idx[1]].starts_with("corrupted") {
+                        viol.add("I7 two presentations with different wire-relevant descriptions have the same id", payload);
+                    } else {
+                        drift.add("two presentations that differ only in an aspect the statement does not list have the same id", payload);
+                    }
+                }
+            }
+
+            let distinct_ids: BTreeSet<TypeId> = ids.iter().flatten().copied().collect();
+            let distinct_keys: BTreeSet<&String> = keys.iter().collect();
+            let samples: Vec<Value> = vectors
+                .iter()
+                .enumerate()
+                .filter(|(_, v)| matches!(s(v, "op"), "base" | "combo") && s(v, "u") == "mutual")
+                .take(3)
+                .map(|(i, v)| json!({"id": v["id"], "root": v["root"], "type_id": ids[i].map(|t| t.0.to_string()), "canon": v["canon"]}))
+                .collect();
+            json!({"cases": vectors.len(), "by_op": by_op, "classes": distinct_keys.len(), "distinct_type_ids": distinct_ids.len(),
+                   "roundtrips_ok": roundtrips, "layout_references_checked": refs_checked, "pinned_checked": pinned_checked, "pinned_ok": pinned_ok,
+                   "violation_count": viol.count(), "violations_by_why": viol.by_why_json(), "violations": viol.first,
+                   "drift_count": drift.count(), "drifts_by_why": drift.by_why_json(), "drifts": drift.first, "samples": samples})
+        })
+        .expect("thread");
+    match handle.join() {
+        Ok(summary) => println!("{summary}"),
+        Err(_) => {
+            eprintln!("driver thread died");
+            std::process::exit(2);
+        }
+    }
+}
